@@ -13,6 +13,7 @@ from mc.build import ci as CI
 from mc.build import im as IM
 from mc.build import misc as MISC
 from mc.build import ti as TI
+from mc.core.util import exc_name
 
 ID = "C18"
 LEVEL = "fault_enumeration"
@@ -319,7 +320,7 @@ def eval_fault(base, i, pre_existing, corrupt=None):
         try:
             _do_dump(base, obj, path)
         except Exception as exc:                                       # noqa
-            raised = type(exc).__name__
+            raised = exc_name(exc)
         finally:
             Ctl.active = False
         where = Ctl.log[-1] if Ctl.log else None
